@@ -74,6 +74,10 @@ pub fn compile_jit(
 ) -> fn(usize, *const *const c_char) -> usize {
     let mut flag_builder = settings::builder();
     flag_builder.set("use_colocated_libcalls", "false").unwrap();
+    // i128 arguments and return values are passed in register pairs (the same way LLVM does it)
+    flag_builder
+        .set("enable_llvm_abi_extensions", "true")
+        .unwrap();
     flag_builder.set("is_pic", "false").unwrap();
     let isa_builder = cranelift_native::builder().unwrap_or_else(|msg| {
         panic!("host machine is not supported: {}", msg);
@@ -119,6 +123,10 @@ pub fn compile_obj(
 ) -> Result<Vec<u8>, write::Error> {
     let mut flag_builder = settings::builder();
     flag_builder.set("use_colocated_libcalls", "false").unwrap();
+    // i128 arguments and return values are passed in register pairs (the same way LLVM does it)
+    flag_builder
+        .set("enable_llvm_abi_extensions", "true")
+        .unwrap();
     // if "is_pic=false" does not work on macos
     // i spent a LOT of time narrowing down a crash to that issue
     flag_builder.set("is_pic", "true").unwrap();
